@@ -3,7 +3,8 @@ import ps, oracle, countlib
 
 LEVEL = "proof"
 THEOREMS = ["C04_count_additive", "C04_small_primes_split", "C04_tiling_counts", "C04_segments_ok", "C04_segments_terminate", "C04_step_tables_ok", "C04_step_lift",
-            "C04_cross_off_refines", "C04_kernel_segment", "C04_kernel_next_states", "C04_addSievingPrime_state"]
+            "C04_cross_off_refines", "C04_kernel_segment", "C04_kernel_next_states", "C04_addSievingPrime_state", "C04_addSievingPrime_none",
+            "C04_erat_kernel_correct", "C04_surviving_are_primes", "C04_kernel_run_example"]
 ASSUMPTIONS = [
     "erat_spec (the segmented sieve marks exactly the primes of [max(start,7), stop]) is the hypothesis under which the count equals the specification. Proved of the kernel: segment geometry, step tables, cross-off loop = specification, the per-segment theorem (bit set iff prime), state hand-over between segments, addSievingPrime's initial state. NOT proved: their assembly over the segment loop, SievingPrimes, presieve, EratMedium/EratBig bucket lists and SievingPrime bit packing, bit decoding, masking at the interval ends - exercised by the correspondence at segment seams, byte/bit edges, p*q boundaries, sieve arrays above 4 MiB, 7 sieve sizes, 1..16 threads, two dispatch builds, and by the cross-off unit comparison (XOFF)",
     "popcount (POPCNT instruction / Harley-Seal) is modelled as the number of set bits",
@@ -119,6 +120,28 @@ def correspond(ctx, scale=1):
         sigs.add(("xoff", c[0] % 30, a_.startswith("|"), c[3] > c[2]))
         if a_.strip() != b_.strip():
             mm.append({"key": "cross-off", "what": "EratSmall::crossOff(prime %d, segment base %d, %d bytes, L1 %d, state %s): implementation changes %s..., model %s..." % (c[0], c[1], c[3], c[2], s_, a_[:120], b_[:120]), "failing_input": None})
+    # the model kernel as a whole (the function erat_kernel_correct is about: geometry model, addSievingPrime, cross-off loop over the
+    # extracted table) on multi-segment intervals vs the implementation and the independent oracle: count, checksum, first, last
+    kr = []
+    for _ in range(6 * scale):
+        kb = rng.choice([16, 16, 17, 23, 32])
+        a = max(7, rng.below(10 ** rng.between(1, 7)))
+        b = a + rng.between(1, 3) * kb * 1024 * 30 + rng.below(400000)
+        kr.append((a, b, kb))
+    kr += [(7, 3000, 16), (7, 7, 16), (8, 10, 16), (113, 127, 16)]
+    l1s = [li[2 * i + 1].split()[5] for i in range(1)] if li else ["32768"]
+    rcm, om, em = ps.run([model], input="".join("LEAF kernel %s %d %d %d\n" % (l1s[0], c[2], c[0], c[1]) for c in kr), timeout=900)
+    rci, oi, ei = ps.run([ps.build_probe("api_probe")], input="".join("COUNT 1 %d %d 1 %d\n" % (c[0], c[1], c[2]) for c in kr), timeout=600)
+    dist["kernel_model_runs"] = len(kr)
+    for c, m_, i_ in zip(kr, om.splitlines(), oi.splitlines()):
+        ev += 1
+        prs = oracle.segment_primes(c[0], c[1])
+        want = "%d %d %d %d" % (len(prs), sum(prs) % 2305843009213693951, prs[0] if prs else 0, prs[-1] if prs else 0)
+        got = " ".join(m_.split()[:4])
+        sigs.add(("kernel-run", m_.split()[-1] if m_.split() else "?", c[2]))
+        if got != want or i_.split()[1] != str(len(prs)):
+            mm.append({"key": "kernel-model", "what": "kernel on [%d, %d] (%d KiB): model kernel gives (count, checksum, first, last) = %s, the oracle %s, count_primes %s" % (c[0], c[1], c[2], got, want, i_),
+                       "failing_input": ({"start": c[0], "stop": c[1], "sieve_size": c[2], "observed": i_, "expected": len(prs)} if i_.split()[1] != str(len(prs)) else None)})
     mm.sort(key=lambda m_: 0 if m_.get("failing_input") else 1)
     return {"evaluations": ev, "distinct_nontrivial": len(sigs),
             "rule": "intervals aimed at segment seams (geometry queried from the real Erat::init for sieve sizes %s), stops on/just past a seam, p*q on the last bit of a segment, byte/bit edges, start <= 5 < stop, stop = p*q, empty and one-byte intervals, all 0 <= a <= b < 40; threads 1/2/4/16. distinct = distinct (build, reason, sieve size, start mod 30, stop mod 30)" % countlib.SIEVE_SIZES,
